@@ -199,6 +199,42 @@ func c07Readout(l c07Loaded) (kind, msg string, mdOK bool) {
 				}
 			}
 		}
+		if strings.HasPrefix(cs.Drain, "bytes-then-read@") {
+			// a consumer that uses ReadByte when the stream offers it (as bufio-style parsers do) for
+			// the first k bytes and in between, and Read for the rest
+			var k int
+			fmt.Sscanf(cs.Drain, "bytes-then-read@%d", &k)
+			br, ok := l.res.Stream.(io.ByteReader)
+			bounded = true
+			limit := int64(len(l.data)) + 1<<16
+			buf := make([]byte, 512)
+			for turn := 0; ; turn++ {
+				if ok && turn%2 == 0 {
+					for i := 0; i < k; i++ {
+						b, e := br.ReadByte()
+						if e != nil {
+							if e != io.EOF {
+								rerr = e
+							}
+							return
+						}
+						got = append(got, b)
+					}
+				}
+				n, e := l.res.Stream.Read(buf)
+				got = append(got, buf[:n]...)
+				if int64(len(got)) > limit || turn > 8*len(l.data)+1000 {
+					bounded = false
+					return
+				}
+				if e != nil {
+					if e != io.EOF {
+						rerr = e
+					}
+					return
+				}
+			}
+		}
 		if strings.HasPrefix(cs.Drain, "copy@") {
 			var k int
 			fmt.Sscanf(cs.Drain, "copy@%d", &k)
@@ -380,7 +416,8 @@ func runC07(r *core.Run) {
 						extras = append(extras, extraUnit{ji, cut, l, "seek", "os.File"})
 					}
 					extras = append(extras, extraUnit{ji, cut, l, "drain", fmt.Sprintf("copy@%d", rg.Intn(64))}, extraUnit{ji, cut, l, "bufio", core.Pick(rg, []string{"16", "4096", "65536"})},
-						extraUnit{ji, cut, l, "drain", fmt.Sprintf("zero-reads@%d", core.Pick(rg, []int{1, 5, 4096}))})
+						extraUnit{ji, cut, l, "drain", fmt.Sprintf("zero-reads@%d", core.Pick(rg, []int{1, 5, 4096}))},
+						extraUnit{ji, cut, l, "drain", fmt.Sprintf("bytes-then-read@%d", core.Pick(rg, []int{1, 9, 4500}))})
 				}
 			}
 		}
@@ -522,6 +559,38 @@ func runC07(r *core.Run) {
 				r.AddEvals(1)
 				if kind != "" {
 					r.Violate("prefix", l+"/"+kind+"/9MiB", msg, map[string]any{"note": "input = optional valid file + 9 MiB of seeded bytes (VERIF_SEED)", "prefix_seed": jobs[0].seed.Name, "loader": l})
+				}
+			}
+		}
+	}
+	// a JPEG with 24 MiB of 0xFF fill bytes between SOI and the frame header (legal: any number of
+	// fill bytes may precede a marker), and the same run without anything after it
+	{
+		run := bytes.Repeat([]byte{0xFF}, 24<<20)
+		tailj := []byte{0xFF, 0xC0, 0, 11, 8, 0, 5, 0, 7, 1, 1, 0x11, 0, 0xFF, 0xDA, 0, 8, 1, 1, 0, 0, 63, 0, 1, 2, 0xFF, 0xD9}
+		for vi, data := range [][]byte{append(append([]byte{0xFF, 0xD8}, run...), tailj...), append([]byte{0xFF, 0xD8}, run...)} {
+			for _, l := range []string{"jpegmeta", "autometa"} {
+				cs := c07Case{Seed: "24MiB-fill-bytes", Cut: len(data), Terminal: "eof", Schedule: "all", Loader: l, ReadBuf: 32768}
+				kind, msg, _ := c07Readout(c07Load(data, cs))
+				r.AddEvals(1)
+				if kind != "" {
+					r.Violate("prefix", l+"/"+kind+"/fill-bytes", msg, map[string]any{"note": "input = FF D8, 24 MiB of FF, then (variant 0) a frame header and scan", "variant": vi, "loader": l})
+				}
+			}
+		}
+	}
+	// a 20 000-byte stream consumed through ReadByte (when offered) and Read in turn, from a source that is not a ByteReader
+	{
+		rg := core.NewRNG(r.Seed, "C07", "bytewise")
+		body := rg.Bytes(20000)
+		for _, pre := range [][]byte{[]byte("RIFF\x24\x4e\x00\x00WEBPVP8 "), {0x89, 'P', 'N', 'G'}, {0xFF, 0xD8, 0xFF}} {
+			data := append(append([]byte{}, pre...), body...)
+			for _, l := range loaderNames {
+				cs := c07Case{Seed: "20000-bytes", Cut: len(data), Terminal: "eof", Schedule: "random", Loader: l, ReadBuf: 512, Drain: "bytes-then-read@4500", RngSeed: 7}
+				kind, msg, _ := c07Readout(c07Load(data, cs))
+				r.AddEvals(1)
+				if kind != "" {
+					r.Violate("prefix", l+"/"+kind+"/bytewise", msg, map[string]any{"note": "20000 seeded bytes behind a format signature, drained by ReadByte x 4500 / Read(512) in turn", "loader": l})
 				}
 			}
 		}
